@@ -79,6 +79,19 @@ PROPS = {
         trusted=["Ping/Traceroute client code (interprets notices) is exercised by the mesh engine, not modelled line by line"],
         assumptions=["hop budget is a byte (0..255)"],
     ),
+    "C11": dict(
+        lean_props="Receptor.Props.C11",
+        engines=[dict(engine="proto", pkg=NETC, test="TestVerifProto", n_quick=300, n_thorough=3000, timeout_quick=1500),
+                 dict(engine="flood", pkg=NETC, test="TestVerifFlood", n_quick=200, n_thorough=2000)],
+        corr_ops={"proto": ["session", "race"], "flood": ["run"]},
+        facts=["adm_checks", "adm_post_checks", "adm_done_exit", "adm_empty_id_guard", "adm_remove_on_all_exits", "adm_exit_selects",
+               "route_self_filter"],
+        trusted=["the already-connected test and the registration form one critical section under connLock (fact adm_checks): "
+                 "simultaneous handshakes are serialised by that lock, modelled as atomic steps in arbitrary order",
+                 "the three select points between registration and 'established' are covered by the exit-path fact "
+                 "(adm_remove_on_all_exits); the interleaving itself is not forced dynamically (no hook)"],
+        assumptions=["start epochs of two same-ID nodes differ (one-second granularity plus 24 random bits)"],
+    ),
     "C12": dict(
         lean_props="Receptor.Props.C12",
         engines=[dict(engine="fw", pkg=NETC, test="TestVerifFw", n_quick=600, n_thorough=6000),
